@@ -54,6 +54,7 @@ func (tgc *TCPGroupCtl) Listen(proxyName string, group string, groupKey string,
 		tgc.groups[group] = tcpGroup
 	}
 	tgc.mu.Unlock()
+	verifhook.At("tcpgroup.listen.lookedup", proxyName)
 
 	return tcpGroup.Listen(proxyName, group, groupKey, addr, port)
 }
